@@ -395,6 +395,49 @@ pub fn run(ctx: &Ctx, replay: Option<&J>) -> i32 {
             }
         }
     }
+    // ---- compound arithmetic: `a o1 b o2 c` for every pair of arithmetic operators, over variables and
+    // over literals, scalar and broadcast - every operator application rounds to a double on its own
+    // (no fused, reordered or extended-precision evaluation whatever the shape of the expression)
+    {
+        let ar: Vec<(usize, &str, BinaryOp)> = OPS.iter().enumerate().filter(|(_, (_, b))| matches!(b, BinaryOp::Add | BinaryOp::Subtract | BinaryOp::Multiply | BinaryOp::Divide | BinaryOp::Modulo | BinaryOp::Power)).map(|(i, (t, b))| (i, *t, *b)).collect();
+        let apply = |op: BinaryOp, a: f64, b: f64| -> f64 {
+            match op {
+                BinaryOp::Add => a + b,
+                BinaryOp::Subtract => a - b,
+                BinaryOp::Multiply => a * b,
+                BinaryOp::Divide => a / b,
+                BinaryOp::Modulo => a % b,
+                _ => a.powf(b),
+            }
+        };
+        let vals: Vec<f64> = if thorough { vec![0.1, 0.3, 1.1, 3.0, 10.0, -4.0, 1e160, 1e-160, 7.0, -0.7, 2.5, 1.7976931348623157e308] } else { vec![0.1, 1.1, 3.0, -0.7, 1e160, 1.7976931348623157e308] };
+        for &a in &vals {
+            for &b in &vals {
+                for &c in &vals {
+                    let mut items: Vec<String> = vec![];
+                    let mut expected: Vec<String> = vec![];
+                    for (_, t1, o1) in &ar {
+                        for (_, t2, o2) in &ar {
+                            let (l1, _) = crate::tgen::spec_level(*o1);
+                            let (l2, r2) = crate::tgen::spec_level(*o2);
+                            let right_first = l2 > l1 || (l2 == l1 && r2);
+                            let want = if right_first { apply(*o1, a, apply(*o2, b, c)) } else { apply(*o2, apply(*o1, a, b), c) };
+                            let (sa, sb, sc) = (RV::Num(a).src(), RV::Num(b).src(), RV::Num(c).src());
+                            items.push(format!("x {} y {} z", t1, t2));
+                            expected.push(RV::Num(want).canon());
+                            items.push(format!("{} {} {} {} {}", sa, t1, sb, t2, sc));
+                            expected.push(RV::Num(want).canon());
+                            items.push(format!("([x] {} y {} z)[0]", t1, t2));
+                            expected.push(RV::Num(want).canon());
+                        }
+                    }
+                    let src = format!("x = {}\ny = {}\nz = {}\n[{}]", RV::Num(a).src(), RV::Num(b).src(), RV::Num(c).src(), items.join(", "));
+                    cases.push(Case { src, kind: "compound-arithmetic", expected: Exp::Val(format!("[{}]", expected.join(", "))) });
+                }
+            }
+            flush(&mut cases, false);
+        }
+    }
     // ---- (iii) dot operators never broadcast
     for op in DOT_OPS {
         for a in short_lists.iter().filter(|l| l.len() <= 2) {
